@@ -99,6 +99,9 @@ structure CurveOracle.Lawful (o : CurveOracle) : Prop where
 
 /-! ## Valid point lists (UFO GLIF specification, as enforced by `glifLib`) -/
 
+/-- the point list has an on-curve point -/
+def hasOn (l : List Point) : Bool := l.any Point.onCurve
+
 /-- no `move` after the first point -/
 def noInnerMove : List Point → Bool
   | [] => true
